@@ -129,6 +129,14 @@ func parseCodeDirectory(blob []byte, itype uint32) (*CodeDirectory, error) {
 	// read hash slots
 	hashBase := int(hdr.HashOffset)
 	hashLen := int(hdr.HashSize)
+	// the special slots precede hashBase and the code slots follow it: all of
+	// them must lie inside the blob before anything is sized or sliced by them
+	if first := int64(hashBase) - int64(hdr.SpecialSlotCount)*int64(hashLen); first < 0 {
+		return nil, errShort
+	}
+	if end := int64(hashBase) + int64(hdr.CodeSlotCount)*int64(hashLen); end > int64(len(blob)) {
+		return nil, errShort
+	}
 	slot := func(i int) []byte {
 		hash := blob[hashBase+i*hashLen : hashBase+(i+1)*hashLen]
 		for _, c := range hash {
